@@ -31,6 +31,9 @@ func genAnnotation(r Rnd, p, q int) string {
 
 func genDescription(r Rnd) []string {
 	n := 1 + r.Intn(4)
+	if chance(r, 1, 6) {
+		n = 6 + r.Intn(5) // a long text
+	}
 	var ll []string
 	for i := 0; i < n; i++ {
 		switch {
